@@ -1,7 +1,7 @@
 """Generators and renderers for the evaluator model (Model/Eval.v): expression
 ASTs -> yq text and -> Coq terms; JSON-model documents -> JSON text and -> Coq
 nodes; canonical serialisation of implementation output (mirror of ser_node)."""
-import json
+import copy, json
 import vlib
 
 KEYS = ["a", "b", "c", "d"]
@@ -37,6 +37,14 @@ def gen_doc(rng, depth=0, maxdepth=3):
             return rng.choice([True, False])
         return rng.choice([1.5, -0.25, 2.75])
     if r < 0.65:
+        if rng.random() < 0.12:
+            # equal siblings (several nulls, several empty containers, the same scalar twice): a decoder or an operator
+            # that shares one node between them shows as soon as one of them is updated
+            x = rng.choice([None, None, None, {}, [], rng.choice(INTS), rng.choice(STRS)]) if rng.random() < 0.8 else gen_doc(rng, depth + 1, maxdepth)
+            out = [copy.deepcopy(x) for _ in range(rng.choice([2, 2, 3]))]
+            if rng.random() < 0.5:
+                out.insert(rng.randrange(len(out) + 1), gen_doc(rng, depth + 1, maxdepth))
+            return out
         return [gen_doc(rng, depth + 1, maxdepth) for _ in range(rng.choice([0, 1, 2, 3, 3, 4]))]
     d = {}
     for k in rng.sample(KEYS, rng.choice([0, 1, 2, 3, 3, 4])):
